@@ -94,7 +94,9 @@ theorem insertJobsReject_none {s : State} {b user : Nat} {u : Update} {bt : Batc
   · simp [h1] at h
   by_cases h2 : u.committed = true
   · simp [h1, h2] at h
-  rw [if_neg h1, if_neg h2] at h
+  by_cases h3 : (specs.any fun sp => !specIdsOk u sp) = true
+  · simp [h1, h2, h3] at h
+  rw [if_neg h1, if_neg h2, if_neg h3] at h
   simp only [not_or, Decidable.not_not, Bool.not_eq_true] at h1
   cases hr : jobRowsOutcome s b (specs.map (mkJob u b)) [] with
   | some o => rw [hr] at h; simp at h
@@ -103,15 +105,51 @@ theorem insertJobsReject_none {s : State} {b user : Nat} {u : Update} {bt : Batc
     exact ⟨fun j hj => ⟨(hall j hj).1, (hall j hj).2.1, (hall j hj).2.2.1⟩, hnd, by simpa using h2, by simpa using h1.1,
       by simpa using h1.2⟩
 
-/-- ER_DUP_ENTRY early return: the first row of the bunch passes the trigger and already exists ⇒ `ok 0` -/
+/-- an accepted bunch passed the id checks of `_create_jobs`: every spec has its in-update id in `[1, n_jobs]`, in-update
+parents in `[1, own in-update id)`, absolute parents in `[1, own absolute id)` -/
+theorem insertJobsReject_ids {s : State} {b user : Nat} {u : Update} {bt : Batch} {first : JobSpec} {specs : List JobSpec}
+    (h : insertJobsReject s b user u bt first specs = none) : ∀ sp ∈ specs, specIdsOk u sp = true := by
+  unfold insertJobsReject at h
+  dsimp only at h
+  by_cases h1 : bt.user ≠ user ∨ bt.deleted = true
+  · simp [h1] at h
+  by_cases h2 : u.committed = true
+  · simp [h1, h2] at h
+  by_cases h3 : (specs.any fun sp => !specIdsOk u sp) = true
+  · simp [h1, h2, h3] at h
+  intro sp hsp
+  cases hv : specIdsOk u sp with
+  | true => rfl
+  | false => exact absurd (List.any_eq_true.mpr ⟨sp, hsp, by simp [hv]⟩) h3
+
+/-- a bunch with an id outside the checks is answered with an error, whatever else holds -/
+theorem insertJobsReject_badIds (s : State) (b user : Nat) (u : Update) (bt : Batch) (first : JobSpec) (specs : List JobSpec)
+    (hbad : ∃ sp ∈ specs, specIdsOk u sp = false) : ∃ e, insertJobsReject s b user u bt first specs = some (.err e) := by
+  unfold insertJobsReject
+  dsimp only
+  by_cases h1 : bt.user ≠ user ∨ bt.deleted = true
+  · exact ⟨_, by rw [if_pos h1]⟩
+  by_cases h2 : u.committed = true
+  · exact ⟨_, by rw [if_neg h1, if_pos h2]⟩
+  obtain ⟨sp, hsp, hb⟩ := hbad
+  have h3 : (specs.any fun sp => !specIdsOk u sp) = true := List.any_eq_true.mpr ⟨sp, hsp, by simp [hb]⟩
+  exact ⟨_, by rw [if_neg h1, if_neg h2, if_pos h3]⟩
+
+/-- ER_DUP_ENTRY early return: the bunch passes the id checks, its first row passes the trigger and already exists ⇒ `ok 0` -/
 theorem insertJobsReject_dup (s : State) (b user : Nat) (first : JobSpec) (rest : List JobSpec) (u : Update) (bt : Batch)
     (h1 : bt.user = user) (h2 : bt.deleted = false) (h3 : u.committed = false)
+    (hids : ∀ sp ∈ first :: rest, specIdsOk u sp = true)
     (hnc : groupCancelled s b (mkJob u b first).group = false)
     (hdup : (findJob s b (first.relId + u.startJob - 1)).isSome) :
     insertJobsReject s b user u bt first (first :: rest) = some (.ok 0) := by
   unfold insertJobsReject
   dsimp only
-  rw [if_neg (by simp [h1, h2]), if_neg (by simp [h3])]
+  have hany : ¬ ((first :: rest).any fun sp => !specIdsOk u sp) = true := by
+    intro h
+    obtain ⟨sp, hsp, hb⟩ := List.any_eq_true.mp h
+    rw [hids sp hsp] at hb
+    simp at hb
+  rw [if_neg (by simp [h1, h2]), if_neg (by simp [h3]), if_neg hany]
   have : jobRowsOutcome s b ((first :: rest).map (mkJob u b)) [] = some (.ok 0) := by
     simp only [List.map_cons, jobRowsOutcome]
     rw [if_neg (by simp [hnc])]
